@@ -274,3 +274,32 @@ def h_chain_isolation(I, fi):
     head = set(log[:first_other])
     P.check("run.chain-starts-from-empty-caches", head == {"clear-proposal-caches", "clear-convolution-caches"} and "main" in log,
             "the chain clears the proposal caches and the recursion caches before it builds its distributions, kernel, samplers or first tree", kind="post")
+
+
+def h_seed_rng(I, fi):
+    """instantiate_and_seed_RNG: with a seed (0 included) the generator is numpy's default_rng seeded with exactly that value; only seed=None gives an unseeded one;
+    the generator created is the one returned"""
+    P = I.P
+    given = P.decide(2) == 1
+    seed = alg.sym("seed", "Int") if given else None
+    if given:
+        P.assume(P.z(seed) >= 0)
+    made = []
+
+    class RandomMod(Model):
+        def m_default_rng(self, I_, *a, **k):
+            made.append((list(a), dict(k)))
+            return ("generator", len(made))
+
+    class NP(Model):
+        def a_random(self, I_):
+            return RandomMod()
+
+    I.registry.globals_override["np"] = NP()
+    out = I.call_function(fi, [seed], {}, force_inline=True)
+    dsl.cover(I, "seed-given" if given else "seed-none")
+    if given:
+        ok = len(made) == 1 and len(made[0][0]) + len(made[0][1]) == 1 and isinstance((made[0][0] or list(made[0][1].values()))[0], Num) and ((made[0][0] or list(made[0][1].values()))[0] - seed).is_zero()
+        P.check("seed.generator-seeded-with-the-given-value", ok and out == ("generator", 1), "a given seed - any value, zero included - seeds the generator that is returned", kind="post")
+    else:
+        P.check("seed.unseeded-only-without-a-seed", made == [([], {})] and out == ("generator", 1), "without a seed one unseeded generator is created and returned", kind="post")
